@@ -961,7 +961,13 @@ def run(ctx):
             got15 = sorted({x[1][2] for x in expr_walk(acc) if x[0] == "agg" and x[1][0] == "adt" and x[1][1] == NT})
             parsers = {c2 for b2, t2, c2 in f.calls() if c2 and (c2.endswith("::try_parse") or c2.endswith("try_parse_signed"))}
             want15 = None
-            if any("MemoryLocation" in p_ for p_ in parsers) and prog.adt(ML):
+            out15 = str(f.d.get("output", ""))
+            # what the reader hands back says which parser stands behind it (also where the call goes through a generic helper)
+            if "MemoryLocation" in out15 and prog.adt(ML):
+                want15 = sorted({KIND_OF.get(v["name"], v["name"]) for v in prog.adt(ML)["variants"]})
+            elif re.search(r"Result<([ui](8|16|32|64)|[\w:]*Integer)\b", out15):
+                want15 = ["Integer"]
+            elif any("MemoryLocation" in p_ for p_ in parsers) and prog.adt(ML):
                 want15 = sorted({KIND_OF.get(v["name"], v["name"]) for v in prog.adt(ML)["variants"]})
             elif any("Integer" in p_ for p_ in parsers):
                 want15 = ["Integer"]
